@@ -202,4 +202,299 @@ theorem back_all (t : E) : Back env t :=
       | head => exact hh
       | tail _ h => exact ht c h) t
 
+
+/-! ### forward direction -/
+
+def Good (v : Val) (t : E) : Prop :=
+  (∃ i, v = .int i ∧ aval (envOf env) t = some i) ∨ (∃ b, v = .bool b ∧ bval (envOf env) t = some b)
+
+def Fwd (t : E) : Prop :=
+  noRlit t = true → wf2 t = true → ∀ v, evalS env (den t) = some v → Good env v t
+
+theorem bin_some {f : Val → Val → Option Val} {x y : Option Val} {v : Val} (h : bin f x y = some v) :
+    ∃ a b, x = some a ∧ y = some b ∧ f a b = some v := by
+  cases x <;> cases y <;> simp [bin] at h ⊢
+  exact h
+
+theorem good_not_real {v : Val} {t : E} (h : Good env v t) : ∀ q, v ≠ .real q := by
+  intro q hq; subst hq
+  rcases h with ⟨i, h, _⟩ | ⟨b, h, _⟩ <;> cases h
+
+theorem add_inv {w cv w' : Val} (h : Val.add w cv = some w') (hw : ∀ q, w ≠ .real q) (hc : ∀ q, cv ≠ .real q) :
+    ∃ a x, w = .int a ∧ cv = .int x ∧ w' = .int (a + x) := by
+  cases w <;> cases cv <;> simp [Val.add, Val.arith] at h
+  · exact ⟨_, _, rfl, rfl, h.symm⟩
+  · exact absurd rfl (hc _)
+  · exact absurd rfl (hw _)
+  · exact absurd rfl (hw _)
+
+theorem mul_inv {w cv w' : Val} (h : Val.mul w cv = some w') (hw : ∀ q, w ≠ .real q) (hc : ∀ q, cv ≠ .real q) :
+    ∃ a x, w = .int a ∧ cv = .int x ∧ w' = .int (a * x) := by
+  cases w <;> cases cv <;> simp [Val.mul, Val.arith] at h
+  · exact ⟨_, _, rfl, rfl, h.symm⟩
+  · exact absurd rfl (hc _)
+  · exact absurd rfl (hw _)
+  · exact absurd rfl (hw _)
+
+theorem good_int {i : Int} {t : E} (h : Good env (.int i) t) : aval (envOf env) t = some i := by
+  rcases h with ⟨j, h, h2⟩ | ⟨b, h, _⟩
+  · injection h with h; subst h; exact h2
+  · cases h
+
+theorem good_bool {b : Bool} {t : E} (h : Good env (.bool b) t) : bval (envOf env) t = some b := by
+  rcases h with ⟨j, h, _⟩ | ⟨c, h, h2⟩
+  · cases h
+  · injection h with h; subst h; exact h2
+
+theorem foldAdd_fwd (cs : List E) (h : ∀ c ∈ cs, Fwd env c) (hr : noRlitL cs = true) (hw : wf2L cs = true) :
+    ∀ acc v, (∀ q, evalS env acc ≠ some (.real q)) → evalS env (denFold .add acc cs) = some v →
+      ∃ w, evalS env acc = some w ∧
+        ((cs = [] ∧ v = w) ∨ ∃ a s, w = .int a ∧ asum (envOf env) cs = some s ∧ v = .int (a + s)) := by
+  induction cs with
+  | nil => intro acc v _ hv; rw [denFold] at hv; exact ⟨v, hv, Or.inl ⟨rfl, rfl⟩⟩
+  | cons c cs ih =>
+    intro acc v hacc hv
+    rw [denFold] at hv
+    simp only [noRlitL, wf2L, Bool.and_eq_true] at hr hw
+    have hcF := h c (by simp) hr.1 hw.1
+    have key : ∀ w', evalS env (.add acc (den c)) = some w' →
+        ∃ a x, evalS env acc = some (.int a) ∧ aval (envOf env) c = some x ∧ w' = .int (a + x) := by
+      intro w' hw'
+      simp only [evalS] at hw'
+      obtain ⟨w, cv, h1, h2, h3⟩ := bin_some hw'
+      have g := hcF cv h2
+      obtain ⟨a, x, rfl, rfl, rfl⟩ := add_inv h3 (fun q e => hacc q (by rw [h1, e])) (good_not_real env g)
+      exact ⟨a, x, h1, good_int env g, rfl⟩
+    obtain ⟨w', hw', hrest⟩ := ih (fun c' hc' => h c' (by simp [hc'])) hr.2 hw.2 (.add acc (den c)) v
+      (by intro q hq; obtain ⟨a, x, _, _, e⟩ := key _ hq; cases e) hv
+    obtain ⟨a, x, ha, hx, rfl⟩ := key w' hw'
+    refine ⟨.int a, ha, Or.inr ?_⟩
+    rcases hrest with ⟨rfl, rfl⟩ | ⟨a', s, e, hs, rfl⟩
+    · exact ⟨a, x, rfl, by simp [asum_single, hx], rfl⟩
+    · injection e with e; subst e
+      exact ⟨a, x + s, rfl, by rw [asum_cons]; exact ⟨x, s, hx, hs, rfl⟩, by congr 1; omega⟩
+
+theorem foldMul_fwd (cs : List E) (h : ∀ c ∈ cs, Fwd env c) (hr : noRlitL cs = true) (hw : wf2L cs = true) :
+    ∀ acc v, (∀ q, evalS env acc ≠ some (.real q)) → evalS env (denFold .mul acc cs) = some v →
+      ∃ w, evalS env acc = some w ∧
+        ((cs = [] ∧ v = w) ∨ ∃ a s, w = .int a ∧ aprod (envOf env) cs = some s ∧ v = .int (a * s)) := by
+  induction cs with
+  | nil => intro acc v _ hv; rw [denFold] at hv; exact ⟨v, hv, Or.inl ⟨rfl, rfl⟩⟩
+  | cons c cs ih =>
+    intro acc v hacc hv
+    rw [denFold] at hv
+    simp only [noRlitL, wf2L, Bool.and_eq_true] at hr hw
+    have hcF := h c (by simp) hr.1 hw.1
+    have key : ∀ w', evalS env (.mul acc (den c)) = some w' →
+        ∃ a x, evalS env acc = some (.int a) ∧ aval (envOf env) c = some x ∧ w' = .int (a * x) := by
+      intro w' hw'
+      simp only [evalS] at hw'
+      obtain ⟨w, cv, h1, h2, h3⟩ := bin_some hw'
+      have g := hcF cv h2
+      obtain ⟨a, x, rfl, rfl, rfl⟩ := mul_inv h3 (fun q e => hacc q (by rw [h1, e])) (good_not_real env g)
+      exact ⟨a, x, h1, good_int env g, rfl⟩
+    obtain ⟨w', hw', hrest⟩ := ih (fun c' hc' => h c' (by simp [hc'])) hr.2 hw.2 (.mul acc (den c)) v
+      (by intro q hq; obtain ⟨a, x, _, _, e⟩ := key _ hq; cases e) hv
+    obtain ⟨a, x, ha, hx, rfl⟩ := key w' hw'
+    refine ⟨.int a, ha, Or.inr ?_⟩
+    rcases hrest with ⟨rfl, rfl⟩ | ⟨a', s, e, hs, rfl⟩
+    · exact ⟨a, x, rfl, by simp [aprod_single, hx], rfl⟩
+    · injection e with e; subst e
+      exact ⟨a, x * s, rfl, by rw [aprod_cons]; exact ⟨x, s, hx, hs, rfl⟩, by rw [Int.mul_assoc]⟩
+
+theorem land_inv {w cv w' : Val} (h : Val.land w cv = some w') : ∃ a x, w = .bool a ∧ cv = .bool x ∧ w' = .bool (a && x) := by
+  cases w <;> cases cv <;> simp [Val.land] at h
+  exact ⟨_, _, rfl, rfl, h.symm⟩
+theorem lor_inv {w cv w' : Val} (h : Val.lor w cv = some w') : ∃ a x, w = .bool a ∧ cv = .bool x ∧ w' = .bool (a || x) := by
+  cases w <;> cases cv <;> simp [Val.lor] at h
+  exact ⟨_, _, rfl, rfl, h.symm⟩
+
+theorem ball_single {ρ : IEnv} {x : E} : ball ρ [x] = bval ρ x := by
+  cases h : bval ρ x <;> simp [ball, o2, h]
+theorem bany_single {ρ : IEnv} {x : E} : bany ρ [x] = bval ρ x := by
+  cases h : bval ρ x <;> simp [bany, o2, h]
+
+theorem foldAnd_fwd (cs : List E) (h : ∀ c ∈ cs, Fwd env c) (hr : noRlitL cs = true) (hw : wf2L cs = true) :
+    ∀ acc v, evalS env (denFold .and acc cs) = some v →
+      ∃ w, evalS env acc = some w ∧
+        ((cs = [] ∧ v = w) ∨ ∃ a s, w = .bool a ∧ ball (envOf env) cs = some s ∧ v = .bool (a && s)) := by
+  induction cs with
+  | nil => intro acc v hv; rw [denFold] at hv; exact ⟨v, hv, Or.inl ⟨rfl, rfl⟩⟩
+  | cons c cs ih =>
+    intro acc v hv
+    rw [denFold] at hv
+    simp only [noRlitL, wf2L, Bool.and_eq_true] at hr hw
+    have hcF := h c (by simp) hr.1 hw.1
+    obtain ⟨w', hw', hrest⟩ := ih (fun c' hc' => h c' (by simp [hc'])) hr.2 hw.2 (.and acc (den c)) v hv
+    simp only [evalS] at hw'
+    obtain ⟨w, cv, h1, h2, h3⟩ := bin_some hw'
+    have g := hcF cv h2
+    obtain ⟨a, x, rfl, rfl, rfl⟩ := land_inv h3
+    have hx := good_bool env g
+    refine ⟨.bool a, h1, Or.inr ?_⟩
+    rcases hrest with ⟨rfl, rfl⟩ | ⟨a', s, e, hs, rfl⟩
+    · exact ⟨a, x, rfl, by simp [ball_single, hx], rfl⟩
+    · injection e with e; subst e
+      exact ⟨a, x && s, rfl, by rw [ball_cons']; exact ⟨x, s, hx, hs, rfl⟩, by rw [Bool.and_assoc]⟩
+
+theorem foldOr_fwd (cs : List E) (h : ∀ c ∈ cs, Fwd env c) (hr : noRlitL cs = true) (hw : wf2L cs = true) :
+    ∀ acc v, evalS env (denFold .or acc cs) = some v →
+      ∃ w, evalS env acc = some w ∧
+        ((cs = [] ∧ v = w) ∨ ∃ a s, w = .bool a ∧ bany (envOf env) cs = some s ∧ v = .bool (a || s)) := by
+  induction cs with
+  | nil => intro acc v hv; rw [denFold] at hv; exact ⟨v, hv, Or.inl ⟨rfl, rfl⟩⟩
+  | cons c cs ih =>
+    intro acc v hv
+    rw [denFold] at hv
+    simp only [noRlitL, wf2L, Bool.and_eq_true] at hr hw
+    have hcF := h c (by simp) hr.1 hw.1
+    obtain ⟨w', hw', hrest⟩ := ih (fun c' hc' => h c' (by simp [hc'])) hr.2 hw.2 (.or acc (den c)) v hv
+    simp only [evalS] at hw'
+    obtain ⟨w, cv, h1, h2, h3⟩ := bin_some hw'
+    have g := hcF cv h2
+    obtain ⟨a, x, rfl, rfl, rfl⟩ := lor_inv h3
+    have hx := good_bool env g
+    refine ⟨.bool a, h1, Or.inr ?_⟩
+    rcases hrest with ⟨rfl, rfl⟩ | ⟨a', s, e, hs, rfl⟩
+    · exact ⟨a, x, rfl, by simp [bany_single, hx], rfl⟩
+    · injection e with e; subst e
+      exact ⟨a, x || s, rfl, by rw [bany_cons']; exact ⟨x, s, hx, hs, rfl⟩, by rw [Bool.or_assoc]⟩
+
+
+theorem fwd_sum (p : Bool) (xs : List E) (h : ∀ c ∈ xs, Fwd env c) : Fwd env (.sum p xs) := by
+  intro hr hw v hv
+  match xs, h with
+  | [], _ => simp [wf2] at hw
+  | [x], _ => simp [wf2] at hw
+  | x :: y :: r, h =>
+    simp only [noRlit, noRlitL, wf2, wf2L, Bool.and_eq_true] at hr hw
+    rw [den] at hv
+    have gx := fun v hv => h x (by simp) hr.1 hw.2.1 v hv
+    obtain ⟨w, hw', hrest⟩ := foldAdd_fwd env (y :: r) (fun c hc => h c (by simp [hc])) (by simp [noRlitL, hr.2])
+      (by simp [wf2L, hw.2.2]) (den x) v (fun q hq => good_not_real env (gx _ hq) q rfl) hv
+    rcases hrest with ⟨e, _⟩ | ⟨a, s, rfl, hs, rfl⟩
+    · cases e
+    · exact Or.inl ⟨_, rfl, by rw [aval_sum, asum_cons]; exact ⟨a, s, good_int env (gx _ hw'), hs, rfl⟩⟩
+
+theorem fwd_prod (p : Bool) (xs : List E) (h : ∀ c ∈ xs, Fwd env c) : Fwd env (.prod p xs) := by
+  intro hr hw v hv
+  match xs, h with
+  | [], _ => simp [wf2] at hw
+  | [x], _ => simp [wf2] at hw
+  | x :: y :: r, h =>
+    simp only [noRlit, noRlitL, wf2, wf2L, Bool.and_eq_true] at hr hw
+    rw [den] at hv
+    have gx := fun v hv => h x (by simp) hr.1 hw.2.1 v hv
+    obtain ⟨w, hw', hrest⟩ := foldMul_fwd env (y :: r) (fun c hc => h c (by simp [hc])) (by simp [noRlitL, hr.2])
+      (by simp [wf2L, hw.2.2]) (den x) v (fun q hq => good_not_real env (gx _ hq) q rfl) hv
+    rcases hrest with ⟨e, _⟩ | ⟨a, s, rfl, hs, rfl⟩
+    · cases e
+    · exact Or.inl ⟨_, rfl, by rw [aval_prod, aprod_cons]; exact ⟨a, s, good_int env (gx _ hw'), hs, rfl⟩⟩
+
+theorem fwd_land (xs : List E) (h : ∀ c ∈ xs, Fwd env c) : Fwd env (.land xs) := by
+  intro hr hw v hv
+  match xs, h with
+  | [], _ => simp [wf2] at hw
+  | [x], _ => simp [wf2] at hw
+  | x :: y :: r, h =>
+    simp only [noRlit, noRlitL, wf2, wf2L, Bool.and_eq_true] at hr hw
+    rw [den] at hv
+    have gx := fun v hv => h x (by simp) hr.1 hw.2.1 v hv
+    obtain ⟨w, hw', hrest⟩ := foldAnd_fwd env (y :: r) (fun c hc => h c (by simp [hc])) (by simp [noRlitL, hr.2])
+      (by simp [wf2L, hw.2.2]) (den x) v hv
+    rcases hrest with ⟨e, _⟩ | ⟨a, s, rfl, hs, rfl⟩
+    · cases e
+    · exact Or.inr ⟨_, rfl, by simp only [bval]; rw [ball_cons']; exact ⟨a, s, good_bool env (gx _ hw'), hs, rfl⟩⟩
+
+theorem fwd_lor (xs : List E) (h : ∀ c ∈ xs, Fwd env c) : Fwd env (.lor xs) := by
+  intro hr hw v hv
+  match xs, h with
+  | [], _ => simp [wf2] at hw
+  | [x], _ => simp [wf2] at hw
+  | x :: y :: r, h =>
+    simp only [noRlit, noRlitL, wf2, wf2L, Bool.and_eq_true] at hr hw
+    rw [den] at hv
+    have gx := fun v hv => h x (by simp) hr.1 hw.2.1 v hv
+    obtain ⟨w, hw', hrest⟩ := foldOr_fwd env (y :: r) (fun c hc => h c (by simp [hc])) (by simp [noRlitL, hr.2])
+      (by simp [wf2L, hw.2.2]) (den x) v hv
+    rcases hrest with ⟨e, _⟩ | ⟨a, s, rfl, hs, rfl⟩
+    · cases e
+    · exact Or.inr ⟨_, rfl, by simp only [bval]; rw [bany_cons']; exact ⟨a, s, good_bool env (gx _ hw'), hs, rfl⟩⟩
+
+/-- two operand values that are `Good` are both integers whenever an arithmetic operation on them is defined -/
+theorem good_cases {v : Val} {t : E} (g : Good env v t) :
+    (∃ i, v = .int i ∧ aval (envOf env) t = some i) ∨ (∃ b, v = .bool b) := by
+  rcases g with h | ⟨b, h, _⟩
+  · exact Or.inl h
+  · exact Or.inr ⟨b, h⟩
+
+theorem fwd_all (hI : IntEnv env) (t : E) : Fwd env t :=
+  E.rec (motive_1 := Fwd env) (motive_2 := fun xs => ∀ c ∈ xs, Fwd env c)
+    (fun n _ _ v hv => by
+      rw [den, evalS_denInt] at hv; injection hv with hv; subst hv
+      exact Or.inl ⟨n, rfl, by simp [aval]⟩)
+    (fun t hr => by simp [noRlit] at hr)
+    (fun b _ _ v hv => by
+      rw [den] at hv; simp only [evalS, Option.some.injEq] at hv; subst hv
+      exact Or.inr ⟨b, rfl, by simp [bval]⟩)
+    (fun n _ _ v hv => by
+      rw [den, evalS_denInt] at hv; injection hv with hv; subst hv
+      exact Or.inl ⟨n, rfl, by simp [aval]⟩)
+    (fun x _ _ v hv => by
+      rw [den] at hv; simp only [evalS] at hv
+      cases v with
+      | int i => exact Or.inl ⟨i, rfl, by simp [aval, envOf, hv]⟩
+      | bool b => exact Or.inr ⟨b, rfl, by simp [bval, envOf, hv]⟩
+      | real q => exact absurd hv (hI x q))
+    (fun par xs h => fwd_sum env par xs h) (fun par xs h => fwd_prod env par xs h)
+    (fun par a b ha hb hr hw v hv => by
+      simp only [noRlit, wf2, Bool.and_eq_true] at hr hw
+      rw [den] at hv; simp only [evalS] at hv
+      obtain ⟨va, vb, h1, h2, h3⟩ := bin_some hv
+      rcases good_cases env (ha hr.1 hw.1 va h1) with ⟨x, rfl, hx⟩ | ⟨_, rfl⟩
+      · rcases good_cases env (hb hr.2 hw.2 vb h2) with ⟨y, rfl, hy⟩ | ⟨_, rfl⟩
+        · simp only [Val.div, Val.arith] at h3
+          split at h3
+          · simp at h3
+          · rename_i hy0
+            simp only [Option.map_some, Option.some.injEq] at h3; subst h3
+            exact Or.inl ⟨_, rfl, by simp [aval, hx, hy, o2, idiv, hy0]⟩
+        · simp [Val.div, Val.arith] at h3
+      · cases vb <;> simp [Val.div, Val.arith] at h3)
+    (fun par a b ha hb hr hw v hv => by
+      simp only [noRlit, wf2, Bool.and_eq_true] at hr hw
+      rw [den] at hv; simp only [evalS] at hv
+      obtain ⟨va, vb, h1, h2, h3⟩ := bin_some hv
+      rcases good_cases env (ha hr.1 hw.1 va h1) with ⟨x, rfl, hx⟩ | ⟨_, rfl⟩
+      · rcases good_cases env (hb hr.2 hw.2 vb h2) with ⟨y, rfl, hy⟩ | ⟨_, rfl⟩
+        · simp only [Val.pow, Option.map_eq_some_iff] at h3
+          obtain ⟨z, hz, rfl⟩ := h3
+          exact Or.inl ⟨_, rfl, by simp [aval, hx, hy, o2, hz]⟩
+        · simp [Val.pow] at h3
+      · cases vb <;> simp [Val.pow] at h3)
+    (fun o a b ha hb hr hw v hv => by
+      simp only [noRlit, wf2, Bool.and_eq_true] at hr hw
+      rw [den] at hv; simp only [evalS] at hv
+      obtain ⟨va, vb, h1, h2, h3⟩ := bin_some hv
+      rcases good_cases env (ha hr.1 hw.1 va h1) with ⟨x, rfl, hx⟩ | ⟨_, rfl⟩
+      · rcases good_cases env (hb hr.2 hw.2 vb h2) with ⟨y, rfl, hy⟩ | ⟨_, rfl⟩
+        · simp [Val.cmp, Val.toRat?, cmpRat_cast] at h3; subst h3
+          exact Or.inr ⟨_, rfl, by simp [bval, hx, hy, o2]⟩
+        · simp [Val.cmp, Val.toRat?] at h3
+      · simp [Val.cmp, Val.toRat?] at h3)
+    (fun a ha hr hw v hv => by
+      simp only [noRlit, wf2] at hr hw
+      rw [den] at hv; simp only [evalS, Option.bind_eq_some_iff] at hv
+      obtain ⟨va, h1, h3⟩ := hv
+      rcases ha hr hw va h1 with ⟨x, rfl, _⟩ | ⟨b, rfl, hb⟩
+      · simp [Val.lnot] at h3
+      · simp only [Val.lnot, Option.some.injEq] at h3; subst h3
+        exact Or.inr ⟨_, rfl, by simp [bval, hb]⟩)
+    (fun xs h => fwd_land env xs h) (fun xs h => fwd_lor env xs h)
+    (fun c hc => by cases hc)
+    (fun hd tl hh ht c hc => by
+      cases hc with
+      | head => exact hh
+      | tail _ h => exact ht c h) t
+
 end LokiModel.C08
